@@ -41,7 +41,7 @@ def _check_copies():
 
 
 def _hop_key(hp):
-    return "%s/%s/%s[%s]" % (hp["scheme"], hp["user"], hp["form"], ",".join(_ip(a) for a in hp["answers"]))
+    return "%s/%s/%s[%s]" % (hp["scheme"], hp["user"], hp["host"] or "-", ",".join(_ip(a) for a in hp["answers"]))
 
 
 def _case_key(c):
@@ -146,7 +146,7 @@ def _batch(ctx, d, binp, label, cfg, consts, stats, warm=None):
         raise vlib.HarnessError("%d cases but %d flow records (%s)" % (n, len(flows), label))
 
     # replay verdict: connect attempts outside the model's permission set
-    reported = set()
+    replay_viol = {}
     for r in flows:
         c = cases[r["id"]]
         key = _case_key(c)
@@ -167,9 +167,8 @@ def _batch(ctx, d, binp, label, cfg, consts, stats, warm=None):
         for cn in r["conns"]:
             stats["connect_targets"].add(_ip(cn["ip"]))
         if r["replay_viol"]:
-            reported.add(("flow", r["id"]))
-            ctx.report(key, "%s fetch %s (allow-list %s): %s" % (c["kind"], " -> ".join(h["url"] for h in c["hops"]), c["allow"], "; ".join(r["replay_viol"][:3])),
-                       {"case": c, "record": r})
+            replay_viol[r["id"]] = (key, "%s fetch %s (allow-list %s): %s" % (
+                c["kind"], " -> ".join(h["url"] for h in c["hops"]), c["allow"], "; ".join(r["replay_viol"][:3])), {"case": c, "record": r})
     if not stats["samples_done"]:
         stats["samples_done"] = True
         picks = [c for c in cases.values() if len(c["hops"]) == 1 and len(c["hops"][0]["answers"]) == 2][:1] + \
@@ -188,7 +187,7 @@ def _batch(ctx, d, binp, label, cfg, consts, stats, warm=None):
         _slim_file(rec, part)
         res = vlib.run_tlc("NetTrace", "NetTrace.cfg", files=[rec], workers=1, timeout=3000, heap="8g", consts={"Chunk": str(chunk)})
         if res.violated in invs:
-            m = re.search(r"l = (\d+)", res.error_state or "")
+            m = re.search(r"\bl = (\d+)", res.error_state or res.out[res.out.find("is violated"):])
             if not m:
                 raise vlib.HarnessError("cannot locate the rejected record:\n" + res.out[-1500:])
             return res, int(m.group(1))
@@ -231,9 +230,13 @@ def _batch(ctx, d, binp, label, cfg, consts, stats, warm=None):
             key = "probe|%s|%s|%s|%s" % (r["kind"], ",".join(r["allowstr"]), r["hoststr"], ",".join(_ip(a) for a in r["resolved"]))
             what = "NetTrace!ProbeOK rejects the decision of the dial guard inside the real %s client: host %r resolving to %s was let through (%d dial attempts), allow-list %s" % (
                 r["kind"], r["hoststr"], [_ip(a) for a in r["resolved"]], r["tried"], r["allowstr"])
-        if (r["t"], r["id"]) not in reported or r["t"] == "probe":
-            ctx.report(key, what, {"case": c, "record": r})
+        if r["t"] == "flow" and r["id"] in replay_viol:
+            what += " [replay: %s]" % replay_viol.pop(r["id"])[1]
+        ctx.report(key, what, {"case": c, "record": r})
         stats["tlc_rejected"] += 1
+    for key, what, obj in replay_viol.values():
+        ctx.report(key, what + " [not among the records TLC was asked to pinpoint]", obj)
+    stats["replay_rejected"] += len(replay_viol)
     vlib.log("C30 %s: %d cases; TLC+expand %.0fs, wait for shim builds %.0fs, replay %.0fs, compare %.0fs, TLC judge %.0fs" % (
         label, n, t1 - t0, t2 - t1, t3 - t2, t4 - t3, time.time() - t4))
     stats["cases"] += n
@@ -253,7 +256,7 @@ def run(ctx):
         binp = vlib.build_bin("net")
         stats = {"keys_all": set(), "keys_nontrivial": set(), "flows_with_connects": 0, "cases_with_predicted_connects": 0, "connects": 0,
                  "requests": 0, "design_divergences": 0, "divergence_samples": [], "connect_targets": set(), "samples_done": False,
-                 "tlc_rejected": 0, "tlc_unjudged_after_cap": 0, "cases": 0, "probes": 0, "probe_permits": 0, "validated": 0, "dns_queries": 0}
+                 "tlc_rejected": 0, "replay_rejected": 0, "tlc_unjudged_after_cap": 0, "cases": 0, "probes": 0, "probe_permits": 0, "validated": 0, "dns_queries": 0}
         v = 1 + (ctx.seed - 1) % 3
         if ctx.quick:
             batches = [("Net_quick.cfg variant=%d" % v, "Net_quick.cfg", {"Variant": str(v)})]
@@ -264,6 +267,12 @@ def run(ctx):
             _batch(ctx, d, binp, label, cfg, consts, stats, warm if i == 0 else None)
             if len(ctx.violations) > 40:
                 break
+        # observation only (outside the fetches the property enumerates): the opt-in link check of `validate -links`
+        try:
+            p = vlib.sh([binp, "linkprobe"], timeout=60, check=False)
+            obs = json.loads([l for l in p.stdout.splitlines() if l.startswith("SUMMARY ")][-1][8:])
+        except Exception as e:
+            obs = {"available": False, "why": str(e)[:200]}
         if stats["cases_with_predicted_connects"] and stats["flows_with_connects"] * 2 < stats["cases_with_predicted_connects"]:
             raise vlib.HarnessError("vacuous run: the model predicts connect attempts in %d cases, the real code made some in only %d" % (
                 stats["cases_with_predicted_connects"], stats["flows_with_connects"]))
@@ -284,9 +293,10 @@ def run(ctx):
                connect_attempts_recorded=stats["connects"], flows_with_connect_attempts=stats["flows_with_connects"],
                distinct_connect_targets=len(stats["connect_targets"]), fake_dns_queries=stats["dns_queries"],
                design_divergences=stats["design_divergences"], divergence_samples=stats["divergence_samples"],
-               tlc_rejected_records=stats["tlc_rejected"], records_not_judged_after_rerun_cap=stats["tlc_unjudged_after_cap"],
+               tlc_rejected_records=stats["tlc_rejected"], replay_only_rejected_flows=stats["replay_rejected"], records_not_judged_after_rerun_cap=stats["tlc_unjudged_after_cap"],
                max_requests_followed={k[13:]: v for k, v in stats.items() if k.startswith("max_requests_")},
-               address_variant=v if ctx.quick else "1,2,3")
+               address_variant=v if ctx.quick else "1,2,3",
+               observation_link_check_not_in_scope=obs)
         ev.assume("Public(ip) is exactly the property's list: not loopback, private (10/8, 172.16/12, 192.168/16, fc00::/7), link-local (169.254/16, "
                   "fe80::/10), multicast or unspecified, after unwrapping IPv4-mapped IPv6; CGNAT 100.64/10, 0/8, broadcast, NAT64/6to4/"
                   "v4-compatible embeddings of private IPv4 addresses and fec0::/10 count as public because the property does not name them",
